@@ -304,3 +304,51 @@ theorem C04_new_sockets_registered (s srv : Sock) (a : Ans) (h : s.auto = true) 
   ⟨update_last_connect s a h ok, (accept_updates s srv a).2 h ok, fun a' => (accept_updates s srv a').1⟩
 
 end XcmModel.C04tp
+
+/-! ## composition along a stack: from "a message is buffered" to "the socket's descriptor is readable" -/
+namespace XcmModel.C04stack
+open XcmModel XcmModel.Xpoll
+
+/-- tcp transport over an established btcp connection: while a byte of an accepted message is buffered, btcp registers its
+kernel socket for output - whatever the application awaits, 0 included -/
+theorem C04_tcp_stack_registers_output (fr : Framing.St) (cond : Nat) (q : Bool) (h : fr.sbuf ≠ []) :
+    ∃ ev, Btcp.connUpdate .ready (Framing.lowerCondition fr cond) q = (false, some ev) ∧ ev &&& 4 ≠ 0 := by
+  obtain ⟨⟨ev, h1, _, h3⟩, _⟩ := C04.C04_btcp_wake (Framing.lowerCondition fr cond) q 0
+  exact ⟨ev, h1, h3 (C04.C04_pending_flush_is_watched fr cond h)⟩
+
+/-- ... hence, in every reachable state of the socket's xpoll instance in which that registration stands, a writable kernel
+socket (`ready fd ev` for every mask that asks for output: K-epoll) makes the XCM socket's descriptor readable: the
+buffered message's flush cannot be forgotten (framing + btcp + xpoll composed) -/
+theorem C04_tcp_stack_wakeup {x : X} (hx : C16.Reach x) (fr : Framing.St) (cond : Nat) (q : Bool) (h : fr.sbuf ≠ [])
+    (ready : Nat → Nat → Bool) (i fd ev : Nat)
+    (hupd : Btcp.connUpdate .ready (Framing.lowerCondition fr cond) q = (false, some ev))
+    (hreg : x.slots[i]? = some (some (fd, ev))) (hfd : fd ≠ ACTIVE)
+    (hwritable : ∀ m, m &&& 4 ≠ 0 → ready fd m = true) :
+    readable x ready = true := by
+  obtain ⟨ev', h1, h2⟩ := C04_tcp_stack_registers_output fr cond q h
+  rw [hupd] at h1
+  have hev : ev = ev' := by
+    have := congrArg Prod.snd h1
+    simpa using this
+  subst hev
+  have hne : ev ≠ 0 := by
+    intro h0; rw [h0] at h2; simp at h2
+  exact (C16.C16_readable_when_met hx ready).2 i fd ev hreg hfd hne (hwritable ev h2)
+
+/-- tls transport over an established, ready btls connection: while a byte of an accepted message is buffered, either the
+bell rings (the descriptor is readable at once) or the TCP socket below the TLS layer is asked to watch something and is
+updated - the flush has a source of wake-up through all three layers -/
+theorem C04_tls_stack_has_source (fr : Framing.St) (cond : Nat) (s : Btls.St) (hi : Btls.WInv s) (hs : s.state = .ready)
+    (hp : Bool) (h : fr.sbuf ≠ []) (hc : cond ≤ 3) :
+    (Btls.connUpdate s (Framing.lowerCondition fr cond) hp).1 = true ∨
+    ((Btls.connUpdate s (Framing.lowerCondition fr cond) hp).2.1 ≠ 0 ∧ (Btls.connUpdate s (Framing.lowerCondition fr cond) hp).2.2.1 = true) := by
+  have hw := C04.C04_pending_flush_is_watched fr cond h
+  have hl : Framing.lowerCondition fr cond = 1 ∨ Framing.lowerCondition fr cond = 2 ∨ Framing.lowerCondition fr cond = 3 := by
+    have hemp : fr.sbuf.isEmpty = false := by cases hq : fr.sbuf <;> simp_all
+    simp only [Framing.lowerCondition, hemp, Bool.false_eq_true, if_false, Generated.XCM_SO_SENDABLE]
+    have : cond = 0 ∨ cond = 1 ∨ cond = 2 ∨ cond = 3 := by omega
+    rcases this with c | c | c | c <;> simp [c]
+  exact (C04btls.C04_btls_waiter_has_source s hi hs _ hp hl).2
+
+end XcmModel.C04stack
+
